@@ -69,8 +69,7 @@ def run(ctx):
                 out.write(f.read())
 
     j = vf.judge_records(ctx, "Trace_GitIgnore", trace, chunk=ctx.q(300, 1500),
-                         sig_fn=lambda rec, verdict: "%s:%s|%s" % (verdict, ",".join(map(txt, rec.get("root", []))),
-                                                                  ",".join(map(txt, rec.get("sub", [])))))
+                         sig_fn=lambda rec, verdict: verdict)
     recs = [x for x in j["records"] if x["op"] == "ignore"]
     doms = [x for x in j["records"] if x["op"] == "domain"]
     want = {(2, 1): 157 * 13, (2, 2): 157 * 157}[(2, ctx.q(1, 2))]
